@@ -20,11 +20,13 @@ CHECKS = {
         'string up to a length bound plus generated scripts and mutations; Disciplined() is evaluated on every implementation outcome and every returned '
         'tree is deserialised into the typed AST (a non-node value in place of a tree is a violation).',
    note=TB + ' Absence of foreign exceptions inside the tokenizer/expander is observed (exhaustive short strings, generated scripts), not proved.'),
- 'C03': dict(level='proof', technique='Lean 4 specification predicate evaluated on implementation outcomes + model correspondence; LR soundness proved',
-   text='Spec.spansWF (Lean) is evaluated on every node of every tree the implementation returns; the model reproduces the implementation\'s trees '
+ 'C03': dict(level='proof', technique='Lean 4 proof (C03_partial: every span clause on every node of every successful parse, above an explicit token-source hypothesis) + the same predicate evaluated on implementation outcomes; model correspondence',
+   text='C03_partial / C03_partial_single (Props/C03*.lean, LR/SoundOrd.lean, Proofs/HoareS.lean): given the named hypothesis TokSpansAll about the token source, for every input and all options every violated clause of Spec.spansWF on every node of every returned tree '
+        'is one of the recorded defects (C03_known: the +heredoc, +emptydesc signatures and empty-span:reservedword, each with a kernel-checked witness): proved through an ordered-stack invariant of the LR engine (run_sound_ord, with kernel-checked table facts: every reduction but three runs with a look-ahead), one span lemma per action function, '
+        'resolve of here-document redirects, the word contract of the expander and induction on nesting depth. Per input: Spec.spansWF (Lean) is evaluated on every node of every tree the implementation returns; the model reproduces the implementation\'s trees '
         '(correspondence), so a span change shows as a disagreement or a failing verdict with the input as replay. Proved: soundness of the LR engine with '
         'value invariants for arbitrary token sources (run_sound), the vehicle for the action-level span invariants.',
-   note=TB + ' The all-inputs span theorem (T2-spans) is not proved yet; exclusions are the listed known findings (D11, D19).'),
+   note=TB + ' TokSpansAll (positioned, non-empty, ordered tokens starting inside the input; redirects extended over a here-document only at the frontier; RootEnds) is NOT discharged for the real tokenizer: it is the part the per-input evaluation carries. Exclusions are the listed known findings (D11, D19).'),
  'C04': dict(level='proof', technique='Lean 4 specification predicate evaluated on implementation outcomes + model correspondence',
    text='Spec.textOK (Lean): per kind, the source under a node\'s span is the node\'s spelling (operators/reserved words/pipes modulo line continuations, '
         'whole shell words by an independent quote-state scanner, $name/${..}/~/$(..)/`..`/<(..) forms, redirect = fd + operator + target), evaluated on every '
@@ -94,9 +96,10 @@ CHECKS.update({
         'skipped, enter/leave events are balanced, mapPos (posshifter, _adjustpositions) rewrites the span of every node once; the kinds constructed in the sources are a subset of '
         'the dispatched kinds which have callbacks (regenerated data). The model visit is compared with a recording nodevisitor subclass on real trees, pruning at every node of small trees.',
    note=TB),
- 'C16': dict(level='proof', technique='Lean 4 relation (pruneLimit) evaluated on outcomes; model correspondence',
-   text='parse(s, expansionlimit=k) must equal Spec.pruneLimit k (parse(s)) for k in 0..3 on inputs with substitutions nested up to depth 4 in every word position and on every line.',
-   note=TB + ' The all-inputs theorem (expand_limit + naturality) is not proved yet.'),
+ 'C16': dict(level='proof', technique='Lean 4 proof (C16_partial: the limited parse equals the pruned unlimited parse, under two decidable per-input conditions) + the relation evaluated on outcomes; model correspondence',
+   text='C16_partial (Props/C16*.lean, 4400 lines): for every input, all options and every k, if the unlimited parse returns parts, flagsNeutral k s o and heredocStable k parts hold, then parse with expansionlimit=k returns exactly Spec.pruneLimitL k parts. Proved with a two-run relational logic on the model monad, '
+        'naturality of every action function and of the LR engine in the word results (rel_action, rel_run), the word level with an abstract nested parser (rel_expandwordWith), an automatic frame walk of the whole tokenizer (frameHyp: the tokenizer neither reads nor writes the limit) and induction on nesting depth. Per input: parse(s, expansionlimit=k) must equal Spec.pruneLimit k (parse(s)) for k in 0..3 on inputs with substitutions nested up to depth 4 in every word position and on every line.',
+   note=TB + ' flagsNeutral fails on rare inputs where a skipped nested parse would have changed the shared parser-state flags (the limited parse then accepts what the unlimited one rejects - the allowed direction); heredocStable needs span containment and stays a hypothesis; both are decided per input by the relation.'),
  'C17': dict(level='proof', technique='Lean 4 proof: parsesingle is the head of parse (parsesingle_eq_head, all inputs); an option that is never asked cannot matter (query congruence); relations evaluated on outcomes',
    text='parsesingle_eq_head / parsesingle_exn_iff / parsesingle_of_parse_exn (Props/C13/Single.lean): for all inputs and options, whenever parse returns parts parsesingle returns their head (None for []), parsesingle raises exactly when the first parser run raises, and '
         'when parse raises later parsesingle still returns the first part. Proved for the whole parser model: if a run never asks optStrict (resp. optProceed) the outcome is the same for both values, and conversely a differing outcome implies the '
